@@ -12,6 +12,9 @@ use crate::model::chunk::StrictDechunk;
 struct Op {
     input: usize,
     out: usize,
+    /// before this write: 0 nothing, 1 read-only accessors, k >= 2 a direct-write report of k - 2 bytes (not applicable to a
+    /// chunked body: whatever it answers, it must not change the body's state)
+    pre: usize,
 }
 
 fn fit(k: usize) -> usize {
@@ -41,6 +44,20 @@ fn run_history(h: &Hist, st: &mut Stats) -> Result<(), String> {
     let mut finish_seen = false;
     let mut calls = 0u64;
     for (i, op) in h.ops.iter().enumerate() {
+        if op.pre == 1 {
+            if s.is_chunked() == Some(false) {
+                return Err(format!("op #{}: is_chunked() turned false", i));
+            }
+            let _ = s.max_input(op.out);
+            st.class("accessor_mid_body");
+        } else if op.pre >= 2 {
+            let before = s.finished();
+            let _ = s.direct(op.pre - 2);
+            if s.finished() != before {
+                return Err(format!("op #{}: consume_direct_write({}) on a chunked body changed finished from {} to {} (terminator emitted = {})", i, op.pre - 2, before, s.finished(), d.terminated));
+            }
+            st.class("direct_report_on_chunked");
+        }
         let input = &pattern()[base + sent..base + sent + op.input];
         let was_terminated = d.terminated;
         let chunks_before = d.chunks.len();
@@ -194,7 +211,7 @@ fn hist_json(h: &Hist) -> Value {
     json!({
         "api": format!("{:?}", h.api),
         "kind": format!("{:?}", h.kind),
-        "ops_in_out": h.ops.iter().map(|o| json!([o.input, o.out])).collect::<Vec<_>>(),
+        "ops_in_out_pre": h.ops.iter().map(|o| json!([o.input, o.out, o.pre])).collect::<Vec<_>>(),
         "premature_advance": h.premature_advance,
     })
 }
@@ -214,12 +231,14 @@ fn exec_random(t: &mut Tape, st: &mut Stats) -> Result<(), String> {
     let n = t.range(1, 40);
     let mut ops = Vec::with_capacity(n);
     for _ in 0..n {
-        let input = match t.weighted(&[4, 2, 2, 1, 1]) {
+        let input = match t.weighted(&[4, 2, 2, 1, 1, 2]) {
             0 => t.range(1, 40),
             1 => 0,
             2 => t.range(41, 400),
             3 => (10_240 * t.range(1, 2) + t.below(17)).saturating_sub(8),
-            _ => t.range(400, 25_000),
+            4 => t.range(400, 25_000),
+            // around the hex-digit boundaries of the chunk size (and beyond: the chunk is then cut to fit)
+            _ => (*t.pick(&[16usize, 256, 4096, 65_536]) + t.below(9)).saturating_sub(4),
         };
         let out = match t.weighted(&[3, 3, 2, 2, 2, 1]) {
             // relative to the pending input: around the exact fit
@@ -235,7 +254,12 @@ fn exec_random(t: &mut Tape, st: &mut Stats) -> Result<(), String> {
             }
             _ => 65_536,
         };
-        ops.push(Op { input, out });
+        let pre = match t.weighted(&[12, 2, 1]) {
+            0 => 0,
+            1 => 1,
+            _ => 2 + t.below(3),
+        };
+        ops.push(Op { input, out, pre });
     }
     let premature_advance = t.chance(15);
     st.case_digest = t.digest();
@@ -257,13 +281,13 @@ fn exec_grid(t: &mut Tape, st: &mut Stats) -> Result<(), String> {
     st.case_digest = t.digest();
     let mut ops = vec![];
     if input > 0 {
-        ops.push(Op { input, out });
+        ops.push(Op { input, out, pre: 0 });
     } else {
-        ops.push(Op { input: 0, out });
+        ops.push(Op { input: 0, out, pre: 0 });
     }
-    ops.push(Op { input: 0, out: fout });
-    ops.push(Op { input: 0, out: fout });
-    ops.push(Op { input: 3, out: 64 });
+    ops.push(Op { input: 0, out: fout, pre: 0 });
+    ops.push(Op { input: 0, out: fout, pre: 0 });
+    ops.push(Op { input: 3, out: 64, pre: 0 });
     let h = Hist {
         api,
         kind,
@@ -281,8 +305,9 @@ pub static DEF: PropDef = PropDef {
     id: "C03",
     rule: "random: histories of 1..40 body writes (input length, output length) on a chunked body through \
 Flow<SendBody>::write or Call<WithBody>::write (default chunked / explicit TE / despite-method), input lengths \
-{0 = finish, 1..40, 41..400, around 10240 and 20480, up to 25000}, output lengths {exact fit of the pending input -3..+5, \
-0..12, 13..64, k*10248-3..+13, anything smaller than the input, 64 KiB}; after every call the cumulative output is fed to \
+{0 = finish, 1..40, 41..400, around 10240 and 20480, up to 25000, around 16 / 256 / 4096 / 65536}, output lengths {exact fit of the pending input -3..+5, \
+0..12, 13..64, k*10248-3..+13, anything smaller than the input, 64 KiB}; occasionally preceded by read-only accessors or a (not applicable) direct-write report, which must leave the body's state alone; \
+after every call the cumulative output is fed to \
 an incremental strict chunk decoder and must be whole non-empty chunks whose data equals the concatenated consumed \
 prefixes; terminator only from an empty write, at most once; finished() <=> terminator emitted; writes after the end: \
 non-empty refused, empty (0,0). enumeration 'grid': (input 0..40 [thorough 0..300]) x (output 0..64 [0..300]) x (finish \
